@@ -28,7 +28,8 @@ import (
 // agentProgram is the behaviour program of a fake agent.
 type agentProgram struct {
 	// Mode: "immediate" exits on its own right after starting; "eof" exits when its
-	// standard input closes; "term" ignores input closure and exits only on SIGTERM;
+	// standard input closes; "eof-ignoreterm" does the same but ignores SIGTERM meanwhile (so
+	// a slow exit can land inside the SIGTERM stage); "term" ignores input closure and exits only on SIGTERM;
 	// "never" ignores input closure and SIGTERM and never exits voluntarily.
 	Mode string
 	// Grandchild: a further process inherits the agent's standard output and error and
@@ -52,7 +53,7 @@ func agentChild() {
 	switch prog.Mode {
 	case "term":
 		signal.Notify(term, syscall.SIGTERM)
-	case "never":
+	case "never", "eof-ignoreterm":
 		signal.Ignore(syscall.SIGTERM)
 	}
 	gpid := 0
@@ -72,7 +73,7 @@ func agentChild() {
 	case "immediate":
 		time.Sleep(delay)
 		os.Exit(prog.ExitCode)
-	case "eof":
+	case "eof", "eof-ignoreterm":
 		io.Copy(io.Discard, os.Stdin)
 		time.Sleep(delay)
 		os.Exit(prog.ExitCode)
@@ -305,7 +306,7 @@ func TestC35(t *testing.T) {
 		return
 	}
 
-	modes := []string{"eof", "term", "never", "immediate"}
+	modes := []string{"eof", "eof-ignoreterm", "term", "never", "immediate"}
 	// Voluntary exits with a clean status (Wait yields nil) and with a failure status.
 	exitCodes := []int{0, 7}
 	// 1300 ms: the agent is still dawdling when the 1 s stage after its trigger ends, so its exit
